@@ -2686,7 +2686,10 @@ class RootTransaction(Transaction):
 
     def _close_impl(self, try_deactivate: bool = False) -> None:
         try:
-            if self.is_active:
+            if self.is_active or self.connection._transaction is self:
+                # also when a failed commit() deactivated the transaction
+                # but left it in place: the database transaction may still
+                # be open
                 self._connection_rollback_impl()
 
             if (
